@@ -35,7 +35,9 @@ Record params := mkParams {
   p_qsize : nat;          (* Policy.AnswerQueueSize, >= 1 after New *)
   p_kind : cid -> kind;
   p_pred : cid -> option cid;
-  p_fixed : bool
+  p_fixed : bool;
+  p_slow : cid -> bool     (* the capability a queued call is delivered to withholds its delivery
+                              acknowledgement (its Recv blocks) until the environment lets it *)
 }.
 
 (* program counters *)
@@ -71,7 +73,9 @@ Inductive ppc_t :=          (* a pipelined call: the goroutine inside queueCalle
 Inductive shpc_t := ShInit | ShWait | ShUser | ShDone.
 
 Inductive dstate := DNil | DOpen | DClosed.          (* srv.drain: nil / open channel / closed channel *)
-Inductive aqphase := AQueueing | ADraining (k : nat) | ADrained.
+(* ADrainWait k: the drain loop has delivered entry k-1 and is blocked inside the target's Recv
+   (the target has not acknowledged delivery yet) *)
+Inductive aqphase := AQueueing | ADraining (k : nat) | ADrained | ADrainWait (k : nat).
 (* result of a pipelined call as seen by its returnEmbargoer / its caller *)
 Inductive tres := TNone | TOk | TErr (origin : cid).
 
@@ -97,6 +101,7 @@ Inductive event :=
 | EvSlotFree (c : cid)
 | EvEnq (p : cid) (root : cid) (basis : nat)
 | EvDeliver (p : cid) (d : dest)
+| EvProc (a : cid) (p : cid)   (* ghost: the drain loop of a's answerQueue processes queue entry p *)
 | EvShutCall
 | EvShutUser.
 
@@ -338,12 +343,15 @@ Definition step_impl (P : params) (c : config) (x : cid) : option config :=
     | ADraining k =>
       match nth_error (aq_q c x) k with
       | Some p =>
-        let c1 := set_aq_ph (upd (aq_ph c) x (ADraining (S k))) c in
+        let c1 := ev (EvProc x p) (set_aq_ph (upd (aq_ph c) x (ADraining (S k))) c) in
         if ierr c x then
           (* reject: q[i].Reject(e) *)
           Some (set_ppc (upd (ppc c1) p PDone) (set_tret (upd (tret c1) p (TErr x)) (complete p (CErr x) c1)))
         else
-          Some (deliver x p (pbasis c p) k true c1)
+          let c2 := deliver x p (pbasis c p) k true c1 in
+          (* recv(...) returns only when the target has acknowledged delivery *)
+          Some (if p_slow P p && (match ppc c2 p with PDelivered => true | _ => false end)
+                then set_aq_ph (upd (aq_ph c2) x (ADrainWait (S k))) c2 else c2)
       | None =>
         (* end of the loop; fulfill: spawn the return forwarders, close(ready) *)
         Some (set_ipc (upd (ipc c) x IReturn) (set_aq_ph (upd (aq_ph c) x ADrained) c))
@@ -376,7 +384,7 @@ Definition step_impl (P : params) (c : config) (x : cid) : option config :=
 Definition ready_closed (c : config) (a : cid) : bool :=
   match aq_ph c a with
   | AQueueing => false
-  | ADraining _ => ierr c a        (* reject closes ready at once, fulfill at the end *)
+  | ADraining _ | ADrainWait _ => ierr c a   (* reject closes ready at once, fulfill at the end *)
   | ADrained => true
   end.
 
@@ -495,6 +503,13 @@ Definition step_shutdown (c : config) : option config :=
   | ShDone => None
   end.
 
+(* the target the drain loop of a is blocked in acknowledges delivery: recv(...) returns *)
+Definition step_drain_ack (c : config) (a : cid) : option config :=
+  match aq_ph c a with
+  | ADrainWait k => Some (set_aq_ph (upd (aq_ph c) a (ADraining k)) c)
+  | _ => None
+  end.
+
 Definition step_cancel (c : config) (x : cid) : option config :=
   if cancelled c x then None else Some (set_cancelled (upd (cancelled c) x true) c).
 
@@ -508,7 +523,8 @@ Inductive tid :=
 | TTargetRet (p : cid) (err : bool)
 | TEmb (p : cid)
 | TCancel (c : cid)
-| TShutdown.
+| TShutdown
+| TDrainAck (a : cid).
 
 Definition step (P : params) (c : config) (t : tid) : option config :=
   match t with
@@ -523,6 +539,7 @@ Definition step (P : params) (c : config) (t : tid) : option config :=
   | TEmb p => step_emb c p
   | TCancel x => step_cancel c x
   | TShutdown => step_shutdown c
+  | TDrainAck a => step_drain_ack c a
   end.
 
 (* a schedule is a list of thread ids; steps that are not enabled are skipped *)
